@@ -29,6 +29,8 @@ func runDownloader(mode string) vRec {
 		// an empty list is empty, and an empty response never reaches the requester.)
 		w.Write([]byte{0x10, 0x00})
 	})
+	// every node registers the sync endpoints; responses for a procedure the receiver does not know are dropped
+	_ = connA.RegisterRPCHandler(csync.RPCEndpointGetBlocksFromID, func(w p2p.ResponseWriter, r *p2p.Request) { w.Write(nil) })
 	if err := connA.Start([]byte{}); err != nil {
 		rec.Res = "harness: " + err.Error()
 		return rec
@@ -67,9 +69,9 @@ func runDownloader(mode string) vRec {
 	select {
 	case <-done:
 		rec.Res = fmt.Sprintf("returned after %d requests", atomic.LoadInt64(&served))
-	case <-time.After(20 * time.Second):
+	case <-time.After(2500 * time.Millisecond):
 		rec.St = 3
-		rec.Panic = fmt.Sprintf("Downloader.Start still running after 2.5 s and %d answered requests (peer keeps sending empty block lists)", atomic.LoadInt64(&served))
+		rec.Panic = fmt.Sprintf("Downloader.Start still running after 2.5 s and %d answered requests (peer keeps sending empty block lists) @ sync.Downloader.Start", atomic.LoadInt64(&served))
 		cancel()
 		select {
 		case <-done:
